@@ -30,7 +30,7 @@ ASSUMPTIONS = [
     'source invalidation is checked only in the documented direction (ancestors of a source-less replacement are invalid; invalidate_source=False retains sources)',
 ]
 SHARDS = {'quick': 8, 'thorough': 16}
-BUDGET = {'quick': 60, 'thorough': 1200}
+BUDGET = {'quick': 45, 'thorough': 1200}
 
 WRAP_KINDS = ('Loop', 'Section', 'Conditional', 'Associate', 'PragmaRegion')
 
@@ -141,6 +141,8 @@ def case_strategy(draw, thorough=False):
                         used.add(_dj(idx[w]['d']))
                         if mode == 'N':
                             blocked.update(range(w, w + idx[w]['size']))
+                            # (also equal duplicates of anything inside a window element must not be keys)
+                            used.update(_dj(idx[j]['d']) for j in range(w, w + idx[w]['size']))
         # ---- single keys
         for _ in range(draw(st.integers(0, 5 if thorough else 4))):
             i = draw(st.integers(1, n - 1)) if n > 1 else 0
@@ -452,6 +454,9 @@ def check_case(case, ctx):
     exp_list = exp if isinstance(exp, list) else ([] if exp is None else [exp])
     exp_list = [e for e in exp_list]
     flags = _scan_expected(exp_list)
+    oflags = _scan_expected([orig_m])
+    if oflags['select']:
+        flags['select'] += oflags['select']      # a SELECT CASE with an initially empty branch body
     if mode in ('T', 'N'):
         nontrivial = (len(key_idx) >= 2 and deep) or dupkey or selfdup or scoped
     else:
@@ -514,9 +519,7 @@ def check_case(case, ctx):
     try:
         t = make()
         result = t.visit(target)
-    except RecursionError:
-        raise
-    except Exception as e:  # noqa  (the statement implies totality on its domain)
+    except Exception as e:  # noqa  (the statement implies totality on its domain; includes RecursionError)
         sig = special_sig()
         if sig is None and flags['where']:
             sig = 'C14:emptied-branch-body-is-stripped:MaskedStatement'
@@ -533,6 +536,8 @@ def check_case(case, ctx):
         sig = special_sig()
         if sig is None and where.endswith('.bodies') and (flags['where'] or flags['select']):
             sig = 'C14:emptied-branch-body-is-stripped:' + where.split('.')[0]
+        if sig is None and oflags['select'] and mode == 'N' and any('win' in ent for ent in case['map']):
+            sig = 'C14:emptied-branch-body-is-stripped:MultiConditional'   # mangled select no longer equals the window key
         if sig is None:
             sig = f'C14:{mode}:mismatch:{where}:{nature}'
         ctx.fail(sig, case, f'first difference at {where} ({nature}): {detail}')
@@ -626,7 +631,18 @@ def run_shard(ctx):
     ctx.note('MaskedTransformer mapper entries are only claimed for leaves met while switched on')
     ctx.note('nested tuples left in bodies by in-place masked updates are flattened before comparison')
     strat = case_strategy(thorough=ctx.thorough)
-    ctx.given(strat, check_case, ctx.scale(14000, 400000), label='c14')
+    total, chunk, k = ctx.scale(14000, 400000), 250, 0
+    while total > 0 and not ctx.out_of_time():
+        ctx.given(strat, check_case, min(chunk, total), label=f'c14-{k}')
+        total -= chunk
+        k += 1
+    ctx.sample({'meaning': 'Transformer({v3-assignment: (c1010, <itself>), loop: None}) on Section(Loop(v3=3), v4=4)',
+                'case': {'tree': {'k': 'Section', 'm': 1, 'body': [{'k': 'Loop', 'm': 2, 'body': [{'k': 'Assignment', 'm': 3}]},
+                                                                  {'k': 'Assignment', 'm': 4}]},
+                         'mode': 'T', 'root': 'node', 'opts': {'inplace': False, 'rebuild_scopes': False, 'invalidate_source': True},
+                         'map': [{'key': 2, 'h': {'t': [{'k': 'Comment', 'm': 1010}, 'self']}}]}})
+    ctx.sample({'meaning': 'MaskedTransformer(start=[node#2], stop=[node#4]) keeps nodes 2..3 spliced out of their inactive parents',
+                'case': {'mode': 'M', 'masked': {'start': [2], 'stop': [4], 'active': False, 'all': False, 'greedy': False}}})
 
 
 def replay(case, ctx):
